@@ -98,6 +98,12 @@ def gen_cases(tier, seed):
             for na in (1, 2, 3) if tier == "quick" else (1, 2, 3, 4, 6):
                 yield {"w": "unary", "op": "collapse", "shape": list(shp), "na": na, "orders": "all" if na <= 4 else "random",
                        "force": {"fun": fun, "dims": dims}, "cseed": int(seed) * 104729 + next(cs)}
+    # region reads through index lists that are not ascending and through downward slices, in every mode / in one mode
+    for rk in ("descending-lists", "downward-slices", "downward-partial", "one-list-unsorted", "downward-with-position"):
+        for shp in ((3, 3), (4, 2, 3), (5,)):
+            for na in (2, 3) if tier == "quick" else (2, 3, 4, 6):
+                yield {"w": "unary", "op": "getitem_region", "shape": list(shp), "na": na, "orders": "all" if na <= 4 else "random",
+                       "force": {"regionkind": rk}, "cseed": int(seed) * 104729 + next(cs)}
     for fun in ("np.sum", "np.max", "np.min", "max", "min", "smax", "smin"):
         for shp in ((2, 3, 2), (12,), (4, 3)):
             for na in (1, 2, 3, 4) if tier == "quick" else (1, 2, 3, 4, 7):
@@ -224,7 +230,21 @@ def run_case(case, ctx):
         nb = 0 if B is None else int(np.count_nonzero(B))
     params = _params(op, rng, shape, A)
     for k_, v_ in (case.get("force") or {}).items():
-        if k_ == "dims":
+        if k_ == "regionkind":
+            reg = []
+            for m_, s_ in enumerate(shape):
+                if v_ == "descending-lists":
+                    reg.append(list(range(s_ - 1, -1, -1))[: max(2, s_ - int(rng.integers(0, 2)))])
+                elif v_ == "downward-slices":
+                    reg.append(slice(None, None, -1))
+                elif v_ == "downward-partial":
+                    reg.append(slice(s_ - 1 - int(rng.integers(0, 2)), None, -1) if s_ >= 3 else slice(None, None, -1))
+                elif v_ == "one-list-unsorted":
+                    reg.append(([s_ - 1] + list(range(0, s_ - 1))) if m_ == 0 else slice(None))
+                else:
+                    reg.append(slice(None, None, -1) if m_ == 0 else int(rng.integers(0, s_)))
+            params["region"] = reg
+        elif k_ == "dims":
             if v_ == "singletons":
                 params["dims"] = [n for n in range(len(shape)) if shape[n] == 1]
         elif na or k_ != "fun" or op != "collapse":
